@@ -560,6 +560,9 @@ def parse_layer(run, pid):
     res = lib.run_tlc("MC_CMakeParse", PARSE_CFG.format(dev="NoDev", n=n, invs="\n".join("INVARIANT " + i for i in PARSE_INVS)))
     run.add_tlc("MC_CMakeParse(tokens<=%d)" % n, res)
     parseh.replay(run, pid, res.lines.get("BEH", []), run.seed, limit=4000 if q else 60000)
+    if pid == "C05":
+        # binding B: parses of files TLC did not choose (fixtures, random and mutilated modules, CMake's own modules)
+        parseh.validate(run, run.seed, 60 if q else 600, 40 if q else 500)
     res0 = lib.run_tlc("MC_CMakeParse", PARSE_CFG.format(dev="ModuleAnywhere", n=4, invs="INVARIANT AcceptsExactlyTheLanguage"),
                        want_violation=True, coverage=False)
     if not res0.violated:
